@@ -638,3 +638,36 @@ def ceval(term: Term, env: dict):
             except (TypeError, ValueError) as e:
                 raise Undecidable(str(e)) from None
     raise Undecidable(show(term)[:60])
+
+
+def enclosing_conditions(root: Term, target: Term) -> list[list]:
+    """For every occurrence of `target` inside `root`: the (test, polarity) pairs of the conditional expressions and of the
+    comprehension filters it sits under (`a if c else b`: a under (c, True), b under (c, False); an element of a
+    comprehension under each of its filters)."""
+    out: list[list] = []
+
+    def go(tm, conds):
+        if tm == target:
+            out.append(list(conds))
+            return
+        if not isinstance(tm, tuple) or not tm or not isinstance(tm[0], str):
+            return
+        if tm[0] == "ifexp":
+            go(tm[1], conds)
+            go(tm[2], conds + [(tm[1], True)])
+            go(tm[3], conds + [(tm[1], False)])
+            return
+        if tm[0] == "comp":
+            inner = conds + [(c, True) for c in tm[4]]
+            go(tm[2], inner)
+            for it, _ in tm[3]:
+                go(it, conds)
+            for c in tm[4]:
+                go(c, conds)
+            return
+        for ch in children(tm):
+            go(ch, conds)
+
+    go(root, [])
+    return out
+
